@@ -286,6 +286,17 @@ def sim_case(ctx, i):
     spec = GEN.gen_scenario(rng, dict(p_currents=1.0, p_continue=0.3, p_reset=0.1, n_lo=8, n_hi=40))
     if i % 2:
         GEN.add_const_rules(rng, spec)
+    if i % 4 == 3 and spec['motor']['i0'] is not None:
+        # the duty cycle wanders INSIDE the dead zone (|D| <= i0/imax: zero torque, current D*imax): consecutive timer windows
+        # with different small values, so that the torque repeats (0) while the duty cycle, and hence the current, changes
+        q_ = GEN.qsi
+        b_ = q_(spec['motor']['i0']) / q_(spec['motor']['imax'])
+        if b_ > 0:
+            dts_, n_ = spec['_ref']['dt_si'], spec['_ref']['n']
+            w_ = max(2, n_ // 5)
+            spec['rules'] = [{'type': 'const', 'start': GEN.Q('Time', GEN.sig((j_ * w_ + 0.5) * dts_, 12), 'sec'), 'dur': GEN.Q('TimeInterval', GEN.sig((w_ - 1) * dts_, 12), 'sec'),
+                              'value': GEN.sig(f_ * b_, 6)} for j_, f_ in enumerate([0.9, -0.4, 0.25, 0.0, -0.8])]
+            ctx.count('simulations_with_the_duty_cycle_inside_the_dead_zone')
     SC.simulate_and_monitor(ctx, spec, {'kind': 'sim', 'index': i}, [sim_monitor])
 
 
